@@ -20,7 +20,8 @@ both the CLOSED_POSITIONS update and the OPEN_POSITIONS save lie on every succes
 closed amount and removes that entry unconditionally together; the map key and the transfer recipient are both
 info.sender. K5: the frontend helper pairs TransferFrom(amount) with IncreaseAllowance(pair, amount) per cw20 asset,
 forwards info.funds, and its reply forwards the whole LP balance with receiver = the saved depositor, turning a
-failed deposit into an error.
+failed deposit into an error: every message of the reply lies behind the success edge of into_result() and from its
+failure edge no successful return is reachable (however the result is tested: `?`, match, if let Err, is_err).
 K6: the position lists are only edited in place: every OPEN_/CLOSED_POSITIONS.update closure returns the list it was
 given (all Vec edits applied to it) and every save stores the list loaded from the same map.
 """
